@@ -189,6 +189,26 @@ func (e *Engine) verifIntrinsic(name string) Intrinsic {
 			e.setResult(st, c, e.newSlice(st, el, len(el), StrV{}))
 			return nil
 		}
+	case "verifNativeCosmetic":
+		return func(e *Engine, st *State, c ssa.CallInstruction, a []Value) []*State {
+			i, j := a[0].(*Term), a[1].(*Term)
+			h, ok := e.Ctx["native:cosmetic"].(func(e *Engine, st *State, i, j int) Value)
+			if !ok || i.Op != OpConst || j.Op != OpConst {
+				e.fail("verifNativeCosmetic: no provider or symbolic index")
+			}
+			e.setResult(st, c, h(e, st, int(i.SignedVal()), int(j.SignedVal())))
+			return nil
+		}
+	case "verifNativeCosmeticCount":
+		return func(e *Engine, st *State, c ssa.CallInstruction, a []Value) []*State {
+			h, ok := e.Ctx["native:cosmeticcount"].(func(i int) int)
+			i := a[0].(*Term)
+			if !ok || i.Op != OpConst {
+				e.fail("verifNativeCosmeticCount: no provider or symbolic index")
+			}
+			e.setResult(st, c, e.TT.Int(int64(h(int(i.SignedVal())))))
+			return nil
+		}
 	case "verifKnown":
 		return func(e *Engine, st *State, c ssa.CallInstruction, a []Value) []*State {
 			id := e.concStr(a[0], "verifKnown id")
